@@ -20,6 +20,8 @@ import time
 VERIF = os.path.dirname(os.path.dirname(os.path.dirname(os.path.abspath(__file__))))
 REPO = os.environ.get("VERIF_REPO", "/repo")
 SPEC = os.path.join(VERIF, "spec")
+# where evidence and replays are written (redirected when the checks are pointed at a scratch tree)
+OUTDIR = os.environ.get("VERIF_OUT_DIR", VERIF)
 JAR = "/opt/veriftools/tla/tla2tools.jar:/opt/veriftools/tla/CommunityModules-deps.jar"
 NCPU = os.cpu_count() or 4
 
@@ -264,7 +266,7 @@ def classify(prop, flags):
 # ---- evidence and verdict ------------------------------------------------------
 
 def write_evidence(ctx, level, coverage, violations, assumptions):
-    os.makedirs(os.path.join(VERIF, "evidence"), exist_ok=True)
+    os.makedirs(os.path.join(OUTDIR, "evidence"), exist_ok=True)
     ev = {
         "property_id": ctx.prop,
         "tier": ctx.tier,
@@ -275,14 +277,14 @@ def write_evidence(ctx, level, coverage, violations, assumptions):
         "wall_s": round(time.time() - ctx.start, 2),
         "violations": violations,
     }
-    p = os.path.join(VERIF, "evidence", ctx.prop + ".json")
+    p = os.path.join(OUTDIR, "evidence", ctx.prop + ".json")
     tmp = p + ".tmp"
     json.dump(ev, open(tmp, "w"), indent=1)
     os.replace(tmp, p)
 
 
 def save_replay(prop, payload):
-    d = os.path.join(VERIF, "replays", prop)
+    d = os.path.join(OUTDIR, "replays", prop)
     os.makedirs(d, exist_ok=True)
     body = json.dumps(payload, sort_keys=True)
     h = hashlib.sha1(body.encode()).hexdigest()[:12]
